@@ -75,7 +75,8 @@ def build_funcs(spec, hook=None, cache=None, declared_sizes=None, ishape_int=Fal
     pfs = []
     for k, fn in enumerate(spec["funcs"]):
         ishape = tuple(spec["sizes"][a] for a in fn["internal"])
-        body = terms.make_function(fn["name"], list(fn["params"]), len(fn["outs"]), ishape, hook=hook, returns_none=bool(fn.get("none")))
+        body = terms.make_function(fn["name"], list(fn["params"]), len(fn["outs"]), ishape, hook=hook, returns_none=bool(fn.get("none")),
+                                   dict_keys=list(fn["outs"]) if fn.get("picker") else None, one_tuple=bool(fn.get("one_tuple")))
         kw = {}
         if fn["internal"] and fn.get("ishape_via", "map") == "pipefunc":
             kw["internal_shape"] = ishape if declared_sizes is None else tuple(declared_sizes[a] for a in fn["internal"])
@@ -85,7 +86,11 @@ def build_funcs(spec, hook=None, cache=None, declared_sizes=None, ishape_int=Fal
             kw["cache"] = bool(cache[k]) if isinstance(cache, (list, tuple)) else bool(cache)
         if pf_kwargs:
             kw.update(pf_kwargs)
-        pfs.append(PipeFunc(body, fn["outs"][0] if len(fn["outs"]) == 1 else tuple(fn["outs"]), mapspec=spec_str(fn), **kw))
+        if fn.get("picker"):  # the function returns {output name: value}; a custom output_picker selects by name
+            from .gen_dag import pick_by_name
+            kw["output_picker"] = pick_by_name
+        out_name = fn["outs"][0] if len(fn["outs"]) == 1 and not fn.get("one_tuple") else tuple(fn["outs"])
+        pfs.append(PipeFunc(body, out_name, mapspec=spec_str(fn), **kw))
     return pfs
 
 
